@@ -11,6 +11,9 @@ use crate::snap::{Dt, Snap};
 
 pub const SLOTS: usize = 3;
 
+/// set by the worker subcommand: print a progress line after every history step
+pub static HEARTBEAT: std::sync::atomic::AtomicBool = std::sync::atomic::AtomicBool::new(false);
+
 pub struct World<K: SimKernel<D>, const D: usize> {
     pub objs: Vec<Option<Dt<K, D>>>,
 }
@@ -474,6 +477,13 @@ pub fn run<K: SimKernel<D>, const D: usize>(
         stats.faults_armed += oprec.faults.len() as u64;
         record_outcome(&mut stats, &oprec.op, &out);
         stats.steps += 1;
+        // progress line for the driver's hang watchdog (worker mode only; never part of the event log)
+        if HEARTBEAT.load(std::sync::atomic::Ordering::Relaxed) {
+            use std::io::Write;
+            let mut o = std::io::stdout().lock();
+            let _ = writeln!(o, "{{\"hb\":{}}}", i);
+            let _ = o.flush();
+        }
         let post_slot = match &oprec.op {
             Op::CloneTo { target, .. } | Op::SaveLoad { target, .. } => Some(*target),
             _ => target,
